@@ -263,6 +263,25 @@ func (r *Recorder) Violation(t TB, sig, msg string, c any) bool {
 	return true
 }
 
+// Candidate (native-fuzz workers only) leaves a case for the driver to confirm by a plain replay in
+// a fresh process, without failing the current input: used where the deciding observation (a real
+// binary run) is too slow for a fuzz worker. One file per signature, the smallest case wins.
+func (r *Recorder) Candidate(sig, msg string, c any) {
+	if r.fuzzDir == "" {
+		return
+	}
+	raw, _ := json.Marshal(c)
+	b, _ := json.Marshal(map[string]any{"property": r.res.Property, "signature": sig, "message": msg, "case": json.RawMessage(raw)})
+	path := filepath.Join(r.fuzzDir, "candidates", fmt.Sprintf("%016x.json", Hash(sig)))
+	if st, err := os.Stat(path); err == nil && st.Size() <= int64(len(b)) {
+		return
+	}
+	tmp := fmt.Sprintf("%s.%d.tmp", path, os.Getpid())
+	if os.WriteFile(tmp, b, 0o644) == nil {
+		os.Rename(tmp, path)
+	}
+}
+
 // Inconclusive records an infrastructure problem (maps to exit 2 in the driver).
 func (r *Recorder) Inconclusive(msg string) {
 	r.mu.Lock()
